@@ -1,10 +1,13 @@
 import NmVerif.Index.Checked
+import NmVerif.Props.C04
+import NmVerif.Props.C06
+import NmVerif.Props.C07
 import Mathlib.Tactic.Ring
 /-
   C15 — Invalid arguments are reported as 'Nothing', never as garbage or a crash.
 -/
 namespace NmVerif.Props.C15
-open NmVerif NmVerif.Checked
+open NmVerif NmVerif.Checked NmVerif.Index
 
 /-- an empty optional fed into any further stage stays empty, at any depth: the pipeline has a value
     iff NO stage failed -/
@@ -201,6 +204,38 @@ theorem shapeReshape_sound (src : Shape) (hs : Pos src) (dst : List Int) (hne : 
       rcases hall d hd with h | h
       · exact absurd h hd1
       · omega
+
+/-! ### the other checked operations: validity theorems proved next to their models, re-exported here -/
+
+/-- broadcasting (any number of shapes) reports failure exactly when the shapes are NumPy-incompatible -/
+theorem broadcast_isSome_iff (ss : List Shape) (hne : ss ≠ []) (hp : C06.AllPos ss) :
+    (broadcastShape ss).isSome ↔ Compatible ss := C06.broadcast_isSome_iff_compatible ss hne hp
+
+/-- broadcast_to is refused exactly when the source cannot be broadcast to the target -/
+theorem broadcastTo_isSome_iff (src dst : Shape) : (broadcastToView src dst).isSome ↔ BroadcastableTo src dst :=
+  C06.broadcastTo_isSome_iff src dst
+
+/-- a binary element-wise view is Nothing exactly for incompatible operand shapes -/
+theorem ufunc2_none_iff {α β γ : Type} (op : α → β → γ) (a : Arr α) (b : Arr β) (ha : Pos a.shape) (hb : Pos b.shape) :
+    ufunc2 op a b = none ↔ ¬ Compatible [a.shape, b.shape] := C07.ufunc2_none_iff_incompatible op a b ha hb
+
+/-- pad refuses a width list that does not have two entries per axis, accepts every other -/
+theorem pad_isSome_iff (s w : List Nat) : (padView s w).isSome ↔ 2 * s.length = w.length := by
+  constructor
+  · intro h
+    apply Classical.byContradiction
+    intro hne
+    rw [C04.pad_nothing s w hne] at h; cases h
+  · intro h
+    have hb : (w.take s.length).length = s.length := by simp; omega
+    have ha : (w.drop s.length).length = s.length := by simp; omega
+    obtain ⟨v, hv, _⟩ := C04.pad_shape s (w.take s.length) (w.drop s.length) hb ha
+    rw [List.take_append_drop] at hv
+    rw [hv]; rfl
+
+/-- roll refuses an axis outside [-dim, dim) -/
+theorem roll_invalid_axis_nothing (s : Shape) (shift axis : Int) (h : axis < -(s.length : Int) ∨ (s.length : Int) ≤ axis) :
+    rollView s shift axis = none := C04.roll_nothing s shift axis h
 
 /-! the behaviours the property singles out, on concrete arguments (also non-vacuity of `ValidReshape`) -/
 example : shapeReshape [2,3] [3,-1] = some [3,2] ∧ ValidReshape [2,3] [3,-1] := by decide
